@@ -18,18 +18,25 @@ def run_real(c):
     root = yamlfs.new_root()
     try:
         yamlfs.materialise(c["tree"], root)
-        src = YamlTargetSource({"root_dir": root, "template": "jinja" if c["engine"] else None,
-                                "merge_lists": c["ml"], "merge_sets": c["ms"],
-                                "allow_empty_top": c["allow_empty"], "cache_size": c.get("cache_size", 64)})
-        pd = copy.deepcopy(c["pd"])
-        try:
-            d, v = src.get_data(c["sys"], pd, c["pv"])
-            r = ("ok", d)
-        except Exception as e:     # noqa: BLE001
-            r = ("exc", exc_code(e))
-        return r
+        if c.get("faults"):
+            with yamlfs.Faults(root, c["faults"]):
+                return _get_once(c, root)
+        return _get_once(c, root)
     finally:
         shutil.rmtree(root, ignore_errors=True)
+
+
+def _get_once(c, root):
+    src = YamlTargetSource({"root_dir": root, "template": "jinja" if c["engine"] else None,
+                            "merge_lists": c["ml"], "merge_sets": c["ms"],
+                            "allow_empty_top": c["allow_empty"], "cache_size": c.get("cache_size", 64)})
+    pd = copy.deepcopy(c["pd"])
+    try:
+        d, v = src.get_data(c["sys"], pd, c["pv"])
+        r = ("ok", d)
+    except Exception as e:     # noqa: BLE001
+        r = ("exc", exc_code(e))
+    return r
 
 
 def T(**files):
@@ -126,12 +133,34 @@ FALSY_DOCS = ["[]\n", "false\n", "0\n", "''\n", "{}\n", "~\n", "# only a comment
 
 
 def falsy_family():
-    """falsy / empty / non-mapping documents as top.yaml and as data files (also as an included file)"""
+    """fault injection (os.stat or open of one file fails with EIO/EACCES/ESTALE during the call: every file of three "
+            "trees, incl. one where both name.yaml and name/init.yaml exist); falsy / empty / non-mapping documents as top.yaml and as data files (also as an included file)"""
     out = []
     for doc in FALSY_DOCS:
         out.append({"top.yaml": doc, "a.yaml": "k: 1\n"})
         out.append({"top.yaml": "'*': [a]\n", "a.yaml": doc})
         out.append({"top.yaml": "'*': [a, b]\n", "a.yaml": "k: 1\ninclude: [c]\n", "b.yaml": "m: 1\n", "c.yaml": doc})
+    return out
+
+
+def fault_family():
+    """(tree, faults): one file of the tree whose os.stat or open fails during the call (EIO / EACCES / ESTALE).  The
+    error is the result (OSError from the existence test, RuntimeError from reading a data file or the top file);
+    in particular a name whose name.yaml cannot be examined is NOT silently served from name/init.yaml."""
+    both = {"top.yaml": "'*': [a, b]\n", "a.yaml": "k: file\ninclude: [.c]\n", "a/init.yaml": "k: init\n", "b.yaml": "m: 1\n",
+            "c.yaml": "w: 1\n", "a/c.yaml": "w: 2\n"}
+    only_init = {k: v for k, v in both.items() if k != "a.yaml"}
+    nested = {"top.yaml": "'*': [d.x]\ns1: [b]\n", "d/x.yaml": "u: 1\ninclude: [.y, ..b]\nw: 1\n", "d/y.yaml": "v: 1\n",
+              "d/y/init.yaml": "v: init\n", "b.yaml": "m: 1\n"}
+    out = []
+    for err in ("EIO", "EACCES", "ESTALE"):
+        for kind in ("stat", "read"):
+            for tree in (both, only_init, nested):
+                for rel in tree:
+                    out.append((tree, {rel: (kind, err)}))
+    # a file that is not referenced at all may fail as it likes
+    out.append((dict(both, **{"zz.yaml": "q: 1\n"}), {"zz.yaml": ("stat", "EIO")}))
+    out.append((both, {"a.yaml": ("stat", "EIO"), "b.yaml": ("read", "EIO")}))
     return out
 
 
@@ -152,6 +181,12 @@ def longlived_family():
                            ("edit", "b.yaml", "l: [7]\nst: !!set {3: null}\n"), ("get", "s1"), ("get", "s2")], ml))
         out.append((dict(pair, **{"a.yaml": "l: [1]\ninclude: [c]\n", "c.yaml": "l: [9]\n"}),
                     [("get", "s1"), ("edit", "b.yaml", "l: [4]\n"), ("get", "s1"), ("edit", "c.yaml", "l: [8]\n"), ("get", "s1")], ml))
+    # a fault during one call, recovery afterwards (the failed call must leave nothing behind)
+    fb = {"top.yaml": "'*': [a, b]\n", "a.yaml": "k: file\n", "a/init.yaml": "k: init\n", "b.yaml": "m: 1\n"}
+    for kind, err in (("stat", "EIO"), ("read", "EACCES")):
+        for rel in ("a.yaml", "top.yaml", "b.yaml"):
+            out.append((fb, [("get", "s1"), ("fault", rel, kind, err), ("get", "s1"), ("unfault", rel), ("get", "s1"),
+                             ("edit", "b.yaml", "m: 2\n"), ("get", "s1")], False))
     # plain edits, deletion, top change
     base = {"top.yaml": "'*': [a, d]\ns1: [d.x]\n", "a.yaml": "k: 1\ninclude: [d.x]\nm: 1\n",
             "d/init.yaml": "l: [1]\ninclude: [.x]\nk: 3\n", "d/x.yaml": "m: 2\nn: {p: 1}\n"}
@@ -173,16 +208,25 @@ def run_longlived(c):
         src = YamlTargetSource({"root_dir": root, "template": "jinja" if c["engine"] else None, "merge_lists": c["ml"],
                                 "merge_sets": c["ms"], "allow_empty_top": c["allow_empty"], "cache_size": 64})
         pd, pv = yamlfs.PRECEDING[0]
+        faults = {}
         r = None
         for op in c["ops"]:
             if op[0] == "get":
-                try:
-                    d, _v = src.get_data(op[1], copy.deepcopy(pd), pv)
-                    r = ("ok", d)
-                except Exception as e:     # noqa: BLE001
-                    r = ("exc", exc_code(e))
+                with yamlfs.Faults(root, faults):
+                    try:
+                        d, _v = src.get_data(op[1], copy.deepcopy(pd), pv)
+                        r = ("ok", d)
+                    except Exception as e:     # noqa: BLE001
+                        r = ("exc", exc_code(e))
             elif op[0] == "pre":
                 pd, pv = yamlfs.PRECEDING[op[1]]
+            elif op[0] == "fault":
+                faults[op[1]] = (op[2], op[3])
+                if op[2] == "read":
+                    yamlfs.touch(root, op[1])
+            elif op[0] == "unfault":
+                if faults.pop(op[1], (None,))[0] == "read":
+                    yamlfs.touch(root, op[1])
             else:
                 new = c12.apply_op(tree, op)
                 c12.sync_fs(root, tree, new)
@@ -201,8 +245,8 @@ def longlived_cases(engine_values=(False, True)):
                     continue
                 prefix = ops[:i + 1]
                 c = {"base": base, "ops": prefix, "engine": engine, "ml": ml, "ms": True, "allow_empty": False}
-                tree, pd, pv, sysid = c12.snapshots(c)[-1]
-                yield dict(c, tree=tree, sys=sysid, pd=pd, pv=pv, longlived=True)
+                tree, pd, pv, sysid, faults = c12.snapshots(c)[-1]
+                yield dict(c, tree=tree, sys=sysid, pd=pd, pv=pv, faults=faults, longlived=True)
 
 
 class C11(Check):
@@ -234,6 +278,10 @@ class C11(Check):
                 for ae in (False, True):
                     yield {"tree": tree, "engine": engine, "ml": False, "ms": True, "allow_empty": ae,
                            "sys": "s1", "pd": {}, "pv": ""}
+        for tree, faults in fault_family():
+            for engine in (False, True):
+                yield {"tree": tree, "faults": faults, "engine": engine, "ml": False, "ms": True, "allow_empty": False,
+                       "sys": "s1", "pd": {}, "pv": ""}
         yield from longlived_cases()
         for tree in directed():
             for engine in (False, True):
@@ -260,7 +308,7 @@ class C11(Check):
         orc = yamlfs.oracle_tables(c["tree"], c["engine"], c["sys"], c["pd"])
         cfg = [c["allow_empty"], c["ml"], c["ms"], c["engine"]]
         io = [0, enc(o[1])] if o[0] == "ok" else [1, o[1]]
-        return sx([c.get("variants", CURRENT_VARIANTS), cfg, orc, yamlfs.listing(c["tree"]), c["pv"], io])
+        return sx([c.get("variants", CURRENT_VARIANTS), cfg, orc, yamlfs.listing(c["tree"], c.get("faults")), c["pv"], io])
 
     def evaluate(self, cases):
         res = super().evaluate(cases)
@@ -291,6 +339,8 @@ class C11(Check):
                     "merge_lists": c["ml"], "merge_sets": c["ms"], "tree_at_last_get": c["tree"], "sys": c["sys"]}
         d = dict(c)
         d["tree"] = {k: ("<dir>" if v is DIR else v) for k, v in c["tree"].items()}
+        if c.get("faults"):
+            d["faults"] = {k: list(v) for k, v in c["faults"].items()}
         d["pd"] = pyval.show(c["pd"])
         return d
 
@@ -303,8 +353,10 @@ class C11(Check):
             ops = c["ops"]
             for i in range(len(ops) - 1):
                 cand = dict(c, ops=ops[:i] + ops[i + 1:])
-                tree, pd, pv, sysid = c12.snapshots(cand)[-1]
-                yield dict(cand, tree=tree, sys=sysid, pd=pd, pv=pv)
+                if cand["ops"][-1][0] != "get":
+                    continue
+                tree, pd, pv, sysid, faults = c12.snapshots(cand)[-1]
+                yield dict(cand, tree=tree, sys=sysid, pd=pd, pv=pv, faults=faults)
             if c["engine"]:
                 yield dict(c, engine=False)
             return
